@@ -42,8 +42,6 @@ def run_scheduled(env, progs, schedule, open_clients, do_op, pid, max_steps=5000
             client = clients[i]
 
             def body(idx):
-                if warm is not None:
-                    warm(client)  # open this thread's connection outside the judged calls
                 for op in progs[i]:
                     cid[0] += 1
                     call = Call(cid[0], i, op, sched.tick())
@@ -56,7 +54,9 @@ def run_scheduled(env, progs, schedule, open_clients, do_op, pid, max_steps=5000
 
         seams.ctl = sched
         try:
-            sched.run([body_for(i) for i in range(n)])
+            # every thread opens its own connection first, outside the schedule (warm), so that segments address the calls
+            prepare = None if warm is None else [(lambda c=clients[i]: warm(c)) for i in range(n)]
+            sched.run([body_for(i) for i in range(n)], prepare=prepare)
         except Stuck as exc:
             raise Violation('%s/no-progress' % pid, str(exc))
         finally:
